@@ -9,8 +9,10 @@ Kernels:
     documented meaning depends on (syntactic), and over the whole domain of a clock field (24 hours, 60 minutes, 60 seconds) - for date
     fields every day of 33 years incl. century years, a sample of the date domain - it renders the documented value, range and padding;
   * Formatting.__post_init__ accepts exactly the directives the table knows (syntactic: same table object).
-The format parser (_decode_date_format) and _duration_format (float arithmetic) are exercised by the bounded stand-in with an independent
-oracle: they are not brought under contract (string-state-machine induction / float division are outside the VC generator's reach).
+  * _decode_date_format (contract-based, loop invariants over the string position): for EVERY format string it terminates and raises nothing;
+    for formats of any length that are pure literal text, one quoted text, one directive, directive + escaped quote, or directive + literal +
+    directive, the result is the concatenation of the parts in order.
+Arbitrary compositions of parts and _duration_format (float arithmetic) are exercised by the bounded stand-in with an independent oracle.
 """
 import ast
 import os
@@ -85,6 +87,186 @@ def build():
     for unit, abbrev in (("week", None), ("day", None), ("hour", None), ("minute", None), ("second", None), ("millisecond", "ms")):
         plan.target(Contract("cell:_unit_format", label=unit, entry=uf_entry(unit, abbrev), ensures=[uf_post(unit, abbrev)], safety="fork",
                              result="str", search=srch("search_durations")))
+
+    # ------------------------------------------------------------------ _decode_date_format: totality, literal pass-through, single directive
+    from pyvc.ctx import LoopSpec
+    from pyvc.sym import Custom, SOpt
+    FLD = z3.Function("rendered_directive", Str, Str)  # _decode_date_format_field(field, value) for the fixed value
+
+    class Chars(Custom):
+        """[*date_format]: the characters of the format string"""
+        def __init__(self, s):
+            self.s = s
+
+        def length(self, ex):
+            return z3.Length(self.s)
+
+        def getitem(self, ex, idx, line):
+            i = T(idx)
+            ex.safety(z3.And(i >= -z3.Length(self.s), i < z3.Length(self.s)), "IndexError", "char-index", line)
+            ex.assume(i >= 0)  # the function only indexes forwards (its indices are proved non-negative by the invariant)
+            return SStr(z3.SubString(self.s, i, 1))
+
+    def df_entry(ex):
+        return {"date_format": ex.fresh("str", "date_format"), "value": PObj("datetime", {})}
+    plan.callee(Contract("cell:_decode_date_format_field", assumed=True, note="total: returns the rendered text of a directive (or '' with a warning)",
+                         model=lambda ex, a, k, l: SStr(FLD(lift(a[0])))))
+    df_opaque = {"[*date_format]": lambda ex, env: Chars(env["date_format"].t)}
+
+    def df_bools(env):
+        out = []
+        for nm_ in ("in_string", "in_field"):
+            v = env[nm_]
+            out.append(v.t if isinstance(v, SBool) else z3.BoolVal(bool(v)))
+        return out
+
+    def df_inv_total(ex, env):
+        n = z3.Length(env["date_format"].t)
+        return z3.And(T(env["index"]) >= 0, T(env["index"]) <= n)
+    plan.target(Contract("cell:_decode_date_format", label="total", entry=df_entry, ensures=[lambda ex, env: z3.BoolVal(isinstance(env["result"], (SStr, str)))],
+                         safety="fork", opaque=df_opaque, result="str", search=srch("search_formats"),
+                         loops={1: LoopSpec([df_inv_total], decreases="len(chars) - index", kinds={"in_string": "bool", "in_field": "bool"})}))
+
+    ALPHA = z3.Function("str_isalpha", Str, Bool)  # str.isalpha() on one character: uninterpreted (the proofs only need it to be a function)
+
+    def _str_pred(name, t):
+        if name != "isalpha":
+            raise Unsupported(f"str.{name} on symbolic string")
+        return ALPHA(t)
+    ctx.str_pred = _str_pred
+    ISALPHA = lambda ex, t: ALPHA(t)
+    QUOTE = z3.StringVal("'")
+
+    def lit_requires(ex, env):
+        s_ = env["date_format"].t
+        i = z3.Int(fresh_name("li"))
+        ch = z3.SubString(s_, i, 1)
+        return z3.ForAll([i], z3.Implies(z3.And(0 <= i, i < z3.Length(s_)), z3.And(z3.Not(ISALPHA(ex, ch)), ch != QUOTE)))
+    lit_requires.__name__ = "the format has no letters and no quotes"
+
+    def lit_inv(ex, env):
+        s_ = env["date_format"].t
+        idx = T(env["index"])
+        ins, inf = df_bools(env)
+        return z3.And(idx >= 0, idx <= z3.Length(s_), lift(env["result"]) == z3.SubString(s_, 0, idx), z3.Not(ins), z3.Not(inf))
+
+    def lit_post(ex, env):
+        return lift(env["result"]) == env["date_format"].t
+    lit_post.__name__ = "literal text passes through unchanged: the result is the format itself"
+    plan.target(Contract("cell:_decode_date_format", label="literal", entry=df_entry, requires=[lit_requires], ensures=[lit_post], safety="fork",
+                         opaque=df_opaque, result="str", search=srch("search_formats"),
+                         loops={1: LoopSpec([lit_inv], kinds={"in_string": "bool", "in_field": "bool"})},
+                         canaries=[lambda ex, env: lift(env["result"]) == z3.StringVal("")]))
+
+    def one_requires(ex, env):
+        s_ = env["date_format"].t
+        i = z3.Int(fresh_name("oi"))
+        ch = z3.SubString(s_, i, 1)
+        return z3.And(z3.Length(s_) >= 1, z3.ForAll([i], z3.Implies(z3.And(0 <= i, i < z3.Length(s_)), ISALPHA(ex, ch))),
+                      z3.Not(ALPHA(QUOTE)))  # "'".isalpha() is False (a fact about str.isalpha, which is otherwise uninterpreted)
+    one_requires.__name__ = "the format is one run of letters (a single directive)"
+
+    def one_inv(ex, env):
+        s_ = env["date_format"].t
+        idx = T(env["index"])
+        ins, inf = df_bools(env)
+        return z3.And(idx >= 0, idx <= z3.Length(s_), lift(env["result"]) == z3.StringVal(""), z3.Not(ins), inf == (idx > 0),
+                      z3.Implies(idx > 0, lift(env["field"]) == z3.SubString(s_, 0, idx)))
+
+    def one_post(ex, env):
+        return lift(env["result"]) == FLD(env["date_format"].t)
+    one_post.__name__ = "a format that is a single directive renders as that directive"
+    plan.target(Contract("cell:_decode_date_format", label="single-directive", entry=df_entry, requires=[one_requires], ensures=[one_post], safety="fork",
+                         opaque=df_opaque, result="str", search=srch("search_formats"),
+                         loops={1: LoopSpec([one_inv], kinds={"in_string": "bool", "in_field": "bool"})},
+                         canaries=[lambda ex, env: lift(env["result"]) == z3.StringVal("")]))
+
+
+    def q_requires(ex, env):
+        s_ = env["date_format"].t
+        n = z3.Length(s_)
+        i = z3.Int(fresh_name("qi"))
+        return z3.And(n >= 3, z3.SubString(s_, 0, 1) == QUOTE, z3.SubString(s_, n - 1, 1) == QUOTE,
+                      z3.ForAll([i], z3.Implies(z3.And(1 <= i, i < n - 1), z3.SubString(s_, i, 1) != QUOTE)))
+    q_requires.__name__ = "the format is one non-empty quoted text without quotes inside"
+
+    def q_inv(ex, env):
+        s_ = env["date_format"].t
+        n, idx = z3.Length(s_), T(env["index"])
+        ins, inf = df_bools(env)
+        return z3.And(idx >= 0, idx <= n - 1, z3.Not(inf), z3.If(idx == 0, z3.And(z3.Not(ins), lift(env["result"]) == z3.StringVal("")),
+                                                                  z3.And(ins, lift(env["result"]) == z3.SubString(s_, 1, idx - 1))))
+
+    def q_post(ex, env):
+        s_ = env["date_format"].t
+        return lift(env["result"]) == z3.SubString(s_, 1, z3.Length(s_) - 2)
+    q_post.__name__ = "quoted text passes through unchanged, whatever characters (letters included) it contains"
+    plan.target(Contract("cell:_decode_date_format", label="quoted", entry=df_entry, requires=[q_requires], ensures=[q_post], safety="fork",
+                         opaque=df_opaque, result="str", search=srch("search_formats"),
+                         loops={1: LoopSpec([q_inv], kinds={"in_string": "bool", "in_field": "bool"})},
+                         canaries=[lambda ex, env: lift(env["result"]) == z3.StringVal("")]))
+
+
+    def dq_requires(ex, env):
+        s_ = env["date_format"].t
+        n = z3.Length(s_)
+        i = z3.Int(fresh_name("di"))
+        return z3.And(n >= 3, z3.SubString(s_, n - 2, 1) == QUOTE, z3.SubString(s_, n - 1, 1) == QUOTE, z3.Not(ALPHA(QUOTE)),
+                      z3.ForAll([i], z3.Implies(z3.And(0 <= i, i < n - 2), ALPHA(z3.SubString(s_, i, 1)))))
+    dq_requires.__name__ = "the format is one directive followed by an escaped quote ('')"
+
+    def dq_inv(ex, env):
+        s_ = env["date_format"].t
+        n, idx = z3.Length(s_), T(env["index"])
+        ins, inf = df_bools(env)
+        a = z3.SubString(s_, 0, n - 2)
+        return z3.And(idx >= 0, z3.Or(idx <= n - 2, idx == n), z3.Not(ins),
+                      z3.If(idx <= n - 2, z3.And(lift(env["result"]) == z3.StringVal(""), inf == (idx > 0), z3.Implies(idx > 0, lift(env["field"]) == z3.SubString(s_, 0, idx))),
+                            z3.And(z3.Not(inf), lift(env["result"]) == z3.Concat(FLD(a), QUOTE))))
+
+    def dq_post(ex, env):
+        s_ = env["date_format"].t
+        return lift(env["result"]) == z3.Concat(FLD(z3.SubString(s_, 0, z3.Length(s_) - 2)), QUOTE)
+    dq_post.__name__ = "the directive's text comes first, then the quote (a format is the concatenation of its parts)"
+    plan.target(Contract("cell:_decode_date_format", label="directive-then-escaped-quote", entry=df_entry, requires=[dq_requires], ensures=[dq_post],
+                         safety="fork", opaque=df_opaque, result="str", search=srch("search_formats"),
+                         loops={1: LoopSpec([dq_inv], kinds={"in_string": "bool", "in_field": "bool"})}))
+
+
+    def two_entry(ex):
+        env = df_entry(ex)
+        env["g_p"] = ex.fresh("int", "separator_position")
+        return env
+
+    def two_requires(ex, env):
+        s_ = env["date_format"].t
+        n, p = z3.Length(s_), env["g_p"].t
+        i = z3.Int(fresh_name("ti"))
+        c = z3.SubString(s_, p, 1)
+        return z3.And(p >= 1, p + 1 < n, z3.Not(ALPHA(c)), c != QUOTE, z3.Not(ALPHA(QUOTE)),
+                      z3.ForAll([i], z3.Implies(z3.And(0 <= i, i < n, i != p), ALPHA(z3.SubString(s_, i, 1)))))
+    two_requires.__name__ = "the format is directive + one literal character (not a letter, not a quote) + directive"
+
+    def two_inv(ex, env):
+        s_ = env["date_format"].t
+        n, p, idx = z3.Length(s_), env["g_p"].t, T(env["index"])
+        ins, inf = df_bools(env)
+        head = z3.Concat(FLD(z3.SubString(s_, 0, p)), z3.SubString(s_, p, 1))
+        res, fld = lift(env["result"]), lift(env["field"])
+        return z3.And(idx >= 0, idx <= n, z3.Not(ins),
+                      z3.If(idx <= p, z3.And(res == z3.StringVal(""), inf == (idx > 0), z3.Implies(idx > 0, fld == z3.SubString(s_, 0, idx))),
+                            z3.If(idx == p + 1, z3.And(res == head, z3.Not(inf)),
+                                  z3.And(res == head, inf, fld == z3.SubString(s_, p + 1, idx - p - 1)))))
+
+    def two_post(ex, env):
+        s_ = env["date_format"].t
+        n, p = z3.Length(s_), env["g_p"].t
+        return lift(env["result"]) == z3.Concat(FLD(z3.SubString(s_, 0, p)), z3.SubString(s_, p, 1), FLD(z3.SubString(s_, p + 1, n - p - 1)))
+    two_post.__name__ = "the result is directive text + the literal character + directive text, in that order"
+    plan.target(Contract("cell:_decode_date_format", label="directive-literal-directive", entry=two_entry, requires=[two_requires], ensures=[two_post],
+                         safety="fork", opaque=df_opaque, result="str", search=srch("search_formats"),
+                         loops={1: LoopSpec([two_inv], kinds={"in_string": "bool", "in_field": "bool"})}))
+
 
     # ------------------------------------------------------------------ the directive table
     DEPENDS = {"a": {"hour"}, "k": {"hour"}, "kk": {"hour"}, "K": {"hour"}, "KK": {"hour"}, "mm": {"minute"}, "m": {"minute"}, "s": {"second"},
